@@ -260,6 +260,21 @@ func appendNum(buf []byte, s string) []byte {
 		}
 	}
 
+	// A decimal literal may start with a zero only if an underscore follows:
+	// "0_1" is valid but "01" is rejected (as legacy octal syntax) by the
+	// tokenizer. Keep such leading zeroes as "0_".
+	for (groupLen == 6) && (len(s) >= 2) && (s[0] == '0') {
+		rest := s[1:]
+		for (len(rest) > 0) && (rest[0] == '_') {
+			rest = rest[1:]
+		}
+		if len(rest) == 0 {
+			break
+		}
+		buf = append(buf, '0', '_')
+		s = rest
+	}
+
 	nonUnderscores := uint32(0)
 	for i := 0; i < len(s); i++ {
 		c := s[i]
